@@ -140,8 +140,13 @@ def run(chk: Check) -> None:
     for names in (["A", "B"], ["User", "UserGroup"]):
         gd = gen_graphs(chk, names, kinds, 2, orders="one")
         step = 1 if thorough else 17
-        for j, d in enumerate(gd[::step]):
-            docs.append((f"graph:{'+'.join(names)}:{j}", concretise.graph_doc(d, use_all=True)))
+        picked = list(gd[::step])
+        if not thorough and names == ["A", "B"]:
+            # order-dependence lives where a self-referential schema is first reached THROUGH another schema: always in the quick family
+            picked += [d for d in gd if d not in picked and len(d["edges"]) == 2 and any(e["from"] == e["to"] for e in d["edges"]) and any(e["from"] != e["to"] and any(x["from"] == x["to"] == e["to"] for x in d["edges"]) for e in d["edges"])]
+        for j, d in enumerate(picked):
+            shape = "|".join(f"{e['from']}-{e['kind']}>{e['to']}" for e in d["edges"]) + "@" + ",".join(d["order"])
+            docs.append((f"graph:{'+'.join(names)}:{j}:{shape}" + ("" if d in gd[::step] else ":order"), concretise.graph_doc(d, use_all=True)))
     chk.cov["documents"] = len(docs)
     chk.cov["variants"] = len(variants)
     chk.cov["rule"] = (
@@ -157,6 +162,8 @@ def run(chk: Check) -> None:
     plan = []
     for di, (dname, spec) in enumerate(docs):
         for vi, v in enumerate([{"variant": ref_variant, "pure": True}] + variants):
+            if dname.endswith(":order") and vi > 0 and v["variant"]["schemas"] == "id":
+                continue  # documents added for their declaration-order sensitivity meet the schema permutations only
             txt, ext = render(spec, v["variant"])
             jid = f"d{di}v{vi}"
             jobs.append({"id": jid, "root": str(root), "spec_text": txt, "ext": ext, "pkg": f"r{n}.client", "force": True, "nopp": True})
@@ -221,6 +228,8 @@ def run(chk: Check) -> None:
         if v["clause"] != "ok":
             loc = dict(v["locus"])
             loc["family"] = dname.split(":")[0]
+            if loc["family"] == "graph":
+                loc["shape"] = dname.split(":")[3]   # the document itself (edges @ declaration order): known order-dependences are listed per shape
             if var["variant"]["rendering"] == "yamlBareKeys":
                 # which kind of key was written bare in this document (observation of the DOCUMENT, plain inspection)
                 loc["bare_key_kinds"] = "+".join(sorted(k for k, has in (("property", dname == "feat:numeric_prop_keys"), ("discriminator_value", dname == "feat:disc_numeric_keys")) if has)) or "status"
